@@ -81,6 +81,7 @@ Concrete == [
   i1 |-> I1, i8 |-> I8, i16 |-> I16, i32 |-> I32, i64 |-> I64,
   float |-> F32, double |-> F64,
   ptr |-> TyPtr(I32), ptr8 |-> I8Ptr, ptras1 |-> TyPtrAS(I32, 1),
+  pnstruct |-> TyPtr(TyNamed("pair", PairTy)), pnstructas1 |-> TyPtrAS(TyNamed("pair", PairTy), 1),
   vec |-> TyVec(2, I32), vec8 |-> TyVec(2, I8), vec64 |-> TyVec(2, I64), vec4 |-> TyVec(4, I32),
   svec |-> TySVec(2, I32), svec64 |-> TySVec(2, I64),
   fvec |-> TyVec(2, F32), dvec |-> TyVec(2, F64), sfvec |-> TySVec(2, F32),
@@ -247,11 +248,14 @@ Kinds == <<
   Cast("fptosi", "float",   [float |-> I32, double |-> I8, fvec |-> TyVec(2, I32), sfvec |-> TySVec(2, I32)]),
   Cast("uitofp", "i32",   [i32 |-> F32, i64 |-> F64, i1 |-> F32, vec |-> TyVec(2, F32), svec |-> TySVec(2, F32)]),
   Cast("sitofp", "i32",   [i32 |-> F32, i8 |-> F64, vec |-> TyVec(2, F64), svec |-> TySVec(2, F32)]),
-  Cast("ptrtoint", "ptr", [ptr |-> I64, ptr8 |-> I32, pvec |-> TyVec(2, I64)]),
-  Cast("inttoptr", "i64", [i64 |-> TyPtr(I32), i32 |-> I8Ptr, vec64 |-> TyVec(2, TyPtr(I32))]),
+  Cast("ptrtoint", "ptr", [ptr |-> I64, ptr8 |-> I32, pvec |-> TyVec(2, I64), ptras1 |-> I64, pnstruct |-> I64, pnstructas1 |-> I32]),
+  Cast("inttoptr", "i64", [i64 |-> TyPtr(I32), i32 |-> I8Ptr, vec64 |-> TyVec(2, TyPtr(I32)), i8 |-> TyPtrAS(I32, 1),
+                           i16 |-> TyPtrAS(TyNamed("pair", PairTy), 1)]),
   Cast("bitcast", "i32",  [i32 |-> F32, ptr |-> I8Ptr, vec |-> I64, double |-> TyVec(2, I32), fvec |-> TyVec(2, I32),
-                    pvec |-> TyVec(2, I8Ptr), svec |-> TySVec(2, F32)]),
-  Cast("addrspacecast", "ptr", [ptr |-> TyPtrAS(I32, 1), ptras1 |-> TyPtr(I32), pvec |-> TyVec(2, TyPtrAS(I32, 1))]),
+                    pvec |-> TyVec(2, I8Ptr), svec |-> TySVec(2, F32), ptras1 |-> TyPtrAS(I8, 1),
+                    pnstruct |-> I8Ptr, pnstructas1 |-> TyPtrAS(PairTy, 1), ptr8 |-> TyPtr(TyNamed("pair", PairTy))]),
+  Cast("addrspacecast", "ptr", [ptr |-> TyPtrAS(I32, 1), ptras1 |-> TyPtr(I32), pvec |-> TyVec(2, TyPtrAS(I32, 1)),
+                                pnstruct |-> TyPtrAS(TyNamed("pair", PairTy), 1), pnstructas1 |-> TyPtr(TyNamed("pair", PairTy))]),
   \* --- other ------------------------------------------------------------------
   With(Entry("icmp", "inst", "value", "{res}icmp {a:pred} {TV:X}, {V:Y}", <<V("X", "T"), V("Y", "T")>>, <<>>,
         <<"i32", "i1", "i8", "i64", "ptr", "vec", "svec", "pvec">>, "bool", "plain"),
@@ -266,7 +270,7 @@ Kinds == <<
         <<V("Cond", "bool"), V("ValueTrue", "T"), V("ValueFalse", "T")>>, FMF, AnyC, "T", "plain"), [fcls |-> "float"]),
   Entry("freeze", "inst", "value", "{res}freeze {TV:X}", <<V("X", "T")>>, <<>>, AnyC, "T", "plain"),
   With(Entry("call", "inst", "callret",
-        "{res}{a:tail|| }call{flags}{a:cc| }{a:retattr| } {fnty} {V:Callee}({args}){a:fnattr| }{bundles}",
+        "{res}{a:tail|| }call{flags}{a:cc| }{a:retattr| }{a:ptras| addrspace(|)} {fnty} {V:Callee}({args}){a:fnattr| }{bundles}",
         CallGroups("Callee"), FMF, <<"void", "i32", "float", "ptr", "vec", "struct">>, "T", "plain"),
        [fcls |-> "float",
         variants |-> <<Var([tail |-> "tail"]), Var([tail |-> "notail"]), Var([cc |-> "fastcc"]), Var([cc |-> "coldcc"]),
@@ -299,7 +303,7 @@ Kinds == <<
         <<V("Addr", "i8*"), Many(S("ValidTargets", "indirect dest", "label", "block"))>>, <<>>, <<"none">>, "none", "indirectbr"),
        [succs |-> <<"ValidTargets">>]),
   With(Entry("invoke", "term", "callret",
-        "{res}invoke{a:cc| }{a:retattr| } {fnty} {V:Invokee}({args}){a:fnattr| }{bundles} to {L:NormalRetTarget} unwind {L:ExceptionRetTarget}",
+        "{res}invoke{a:cc| }{a:retattr| }{a:ptras| addrspace(|)} {fnty} {V:Invokee}({args}){a:fnattr| }{bundles} to {L:NormalRetTarget} unwind {L:ExceptionRetTarget}",
         CallGroups("Invokee") \o <<Lbl("NormalRetTarget", "label"), Lbl("ExceptionRetTarget", "unwind target")>>,
         <<>>, <<"void", "i32", "ptr", "struct">>, "T", "invoke"),
        [succs |-> <<"NormalRetTarget", "ExceptionRetTarget">>,
@@ -409,30 +413,34 @@ PathsOf(e, cls) == IF e.kind = "getelementptr" THEN GepPaths[cls]
                    ELSE IF e.kind \in {"extractvalue", "insertvalue"} THEN AggPaths[cls] ELSE <<>>
 DefPath(e, cls) == IF HasPath(e) THEN PathsOf(e, cls)[1] ELSE <<>>
 
-GepSrcTy(cls) == IF cls = "pvec" THEN Concrete.pvec ELSE TyPtr(Concrete[cls])
+\* address space of the pointer operands: the attribute ptras puts them into address space 1
+ASOf(attrs) == IF Has(attrs, "ptras") THEN 1 ELSE 0
+GepSrcTy(cls, as) == IF cls = "pvec" THEN Concrete.pvec ELSE TyPtrAS(Concrete[cls], as)
 GepElemTy(cls) == IF cls = "pvec" THEN I32 ELSE Concrete[cls]
 \* the aggregate the i-th index (i >= 2) of a getelementptr steps into
 GepLevel(cls, path, i) == PathTy(Concrete[cls], SubSeq(path, 2, i - 1))
 GepIsField(cls, path, i) == cls # "pvec" /\ i >= 2 /\ i <= Len(path) /\ Body(GepLevel(cls, path, i)).k = "struct"
 GepIdxTy(cls, path, i) == IF cls = "pvec" THEN TyVec(2, I64) ELSE IF GepIsField(cls, path, i) THEN I32 ELSE I64
-GepResTy(cls, path, n) ==
+GepResTy(cls, path, n, as) ==
   IF cls = "pvec" THEN Concrete.pvec
-  ELSE IF n = 0 THEN TyPtr(Concrete[cls]) ELSE TyPtr(PathTy(Concrete[cls], SubSeq(path, 2, n)))
+  ELSE IF n = 0 THEN TyPtrAS(Concrete[cls], as) ELSE TyPtrAS(PathTy(Concrete[cls], SubSeq(path, 2, n)), as)
 
 SlotTy(e, cls, s, i, attrs, nargs, path) ==
   LET T == Concrete[cls] d == s.ty IN
   CASE d = "T" -> T
     [] d = "bool" -> BoolShape(T)
-    [] d = "ptrT" -> TyPtr(T)
+    [] d = "ptrT" -> TyPtrAS(T, ASOf(attrs))
     [] d = "elemT" -> T.e
     [] d = "mask" -> MaskShape(T)
     [] d = "idx" -> IF Has(attrs, "idxty") /\ attrs.idxty = "i64" THEN I64 ELSE I32
     [] d = "pathT" -> PathTy(T, path)
-    [] d = "gepsrc" -> GepSrcTy(cls)
+    [] d = "gepsrc" -> GepSrcTy(cls, ASOf(attrs))
     [] d = "gepidx" -> GepIdxTy(cls, path, i)
     [] d = "arg" -> ArgTys[i]
     [] d = "clause" -> ClauseTys[i]
-    [] d = "callee" -> CalleeTy(cls, nargs, Has(attrs, "variadic"))
+    [] d = "callee" -> IF Has(attrs, "calleeptr")      \* a call through a pointer value, possibly in address space 1
+                       THEN [CalleeTy(cls, nargs, Has(attrs, "variadic")) EXCEPT !.as = ASOf(attrs)]
+                       ELSE CalleeTy(cls, nargs, Has(attrs, "variadic"))
     [] d = "i8*" -> I8Ptr
     [] d = "i8**" -> TyPtr(I8Ptr)
     [] OTHER -> LitTy[d]
@@ -458,7 +466,7 @@ ResTy(e, cls, cfg, attrs, path) ==
     [] r = "pathT" -> PathTy(T, path)
     [] r = "allocaT" -> TyPtrAS(T, IF Has(attrs, "addrspace") THEN 1 ELSE 0)
     [] r = "cmpxchgT" -> TyStruct(<<T, I1>>)
-    [] r = "gepT" -> GepResTy(cls, path, cfg.cnt[2])
+    [] r = "gepT" -> GepResTy(cls, path, cfg.cnt[2], ASOf(attrs))
     [] r = "token" -> TyToken
     [] OTHER -> TyVoid
 
@@ -474,7 +482,8 @@ GroupOps(e, cls, g, c, attrs, nargs, path) ==
       LET field == g.mem[m].ty = "gepidx" /\ GepIsField(cls, path, i) IN
       [slot |-> g.mem[m].n, i |-> i, j |-> 0, role |-> g.mem[m].role,
        ty |-> SlotTy(e, cls, g.mem[m], i, attrs, nargs, path),
-       src |-> IF field THEN "const" ELSE g.mem[m].src,
+       src |-> IF field THEN "const"
+               ELSE IF g.mem[m].role = "callee" /\ Has(attrs, "calleeptr") THEN "any" ELSE g.mem[m].src,
        cv |-> IF g.mem[m].ty = "gepidx" /\ i <= Len(path) /\ (field \/ g.mem[m].src = "const") THEN path[i] ELSE -1]]])
 BundleOps(bund) ==
   FlatSeq([b \in 1..Len(bund) |->
@@ -539,6 +548,19 @@ Cases(e) ==
                DefaultCfg(e, IF e.variants[v].cls # "" THEN e.variants[v].cls ELSE dc), <<>>, e.variants[v].a, TRUE, FALSE)
           : v \in 1..Len(e.variants)}
   \cup {MkCase(e, "flags", FlagCls(e), DefaultCfg(e, FlagCls(e)), fl, da, TRUE, FALSE) : fl \in FlagSets(e)}
+  \* pointer operands in address space 1, from a parameter, an alloca and a global of that address space;
+  \* calls through a pointer value (address space 0 and 1)
+  \* (a constant expression can only start from the global; LLVM has no globals of scalable vector type)
+  \cup (IF e.kind \in {"load", "store", "cmpxchg", "atomicrmw", "getelementptr"}
+        THEN {x \in {MkCase(e, "as", c, DefaultCfg(e, c), <<>>, [ptras |-> "1", ptrsrc |-> ps] @@ da, TRUE, FALSE)
+                      : c \in SeqToSet(e.classes) \ {"pvec"}, ps \in {"param", "alloca", "global"}}
+                : /\ (e.cat = "cexpr" => x.attrs.ptrsrc = "global")
+                  /\ ~(x.attrs.ptrsrc = "global" /\ x.cls = "svec")}
+        ELSE {})
+  \cup (IF e.kind \in {"call", "invoke"}
+        THEN {MkCase(e, "as", c, DefaultCfg(e, c), <<>>, a, TRUE, FALSE)
+                : c \in SeqToSet(e.classes), a \in {[calleeptr |-> "1"], [calleeptr |-> "1", ptras |-> "1"]}}
+        ELSE {})
   \* every index path of every class
   \cup (IF HasPath(e)
         THEN UNION {{MkCaseP(e, "path", c, PathCfg(e, c, PathsOf(e, c)[pi]), <<>>, da, TRUE, FALSE, PathsOf(e, c)[pi], <<>>)
